@@ -116,5 +116,32 @@ def native1dFrom (mask : List Bool) (s : List α) (zero : α) : List α :=
   (List.range idx.length).foldl
     (fun arr k => arr.set (idx.getD k 0) (s.getD k zero)) (List.replicate mask.length zero)
 
+/-- `array_1d * np.invert(mask_1d)` on a native 1-D input (repair D31) -/
+def applyMask1d (mask : List Bool) (a : List α) (zero : α) : List α :=
+  (List.range mask.length).map fun x => if mask.getD x true then zero else a.getD x zero
+
+/-- `convert_array_1d`: an input is native iff its length equals the mask's; a native input is
+    multiplied by the inverted mask; then stored as is or converted. (No shape check in the code: a
+    slim input of the wrong length makes numpy raise in the scatter — `none` here.) -/
+def convertArray1d (mask : List Bool) (v : List α) (storeNative : Bool) (zero : α) :
+    Option (Stored α) :=
+  if v.length = mask.length then
+    let v' := applyMask1d mask v zero
+    if storeNative then some (.native v') else some (.slim (slim1dFrom mask v' zero))
+  else if v.length = (nativeForSlim1d mask).length then
+    if storeNative then some (.native (native1dFrom mask v zero)) else some (.slim v)
+  else none
+
+def Stored.values : Stored α → List α
+  | .slim v => v
+  | .native v => v
+
+/-- `Array1D.slim` / `.native`: re-run the constructor on the stored values -/
+def viewSlim1d (mask : List Bool) (st : Stored α) (zero : α) : Option (Stored α) :=
+  convertArray1d mask st.values false zero
+
+def viewNative1d (mask : List Bool) (st : Stored α) (zero : α) : Option (Stored α) :=
+  convertArray1d mask st.values true zero
+
 end Impl
 end Model
